@@ -379,9 +379,11 @@ pub fn check_bytes(case: &DocCase, html: Vec<u8>, st: &mut Stats, exclude_known:
 }
 
 fn grammar_case(g: G) -> BoxedStrategy<DocCase> {
-    (gen::doc(&g), 1usize..=200, cfg_bounded())
-        .prop_map(|(mut doc, width, cfg)| {
+    (gen::doc(&g), prop_oneof![4 => 1usize..=200, 1 => 1usize..=6], cfg_bounded(), prop::bool::weighted(0.2))
+        .prop_map(|(mut doc, width, mut cfg, overflow)| {
             sanitize_hrefs(&mut doc.blocks);
+            // "forall option mixes that still yield Ok": with overflow allowed everything renders
+            cfg.overflow = overflow;
             DocCase { doc, muts: vec![], width, cfg }
         })
         .boxed()
